@@ -85,6 +85,27 @@ def check_tags(out, facts, S, D):
                         alts.append(x)
         ew = S.wire_type(st)
         exp = encoder_tags(ew, st)
+        probed_ok = False
+        if exp is not None and any(e[0] == 'rb' for e in its):
+            # decide by probing first, whatever the dispatch looks like (`match byte`, `matches!`, an if-chain): for each of
+            # the 256 values of the byte, does the rest of the decoder reject?
+            rb_i0 = [k_ for k_, e in enumerate(its) if e[0] == 'rb'][0]
+            uid0 = its[rb_i0][1]
+            rest0 = sym.cat(*its[rb_i0 + 1:])
+            acc0, und0 = set(), False
+            for b in range(256):
+                evs_, st_ = trace(rest0, lambda x, b=b: b if strip(x) == ('byte', uid0) else None)
+                if st_ == 'AMBIG':
+                    und0 = True
+                    break
+                if st_ != 'ERR':
+                    acc0.add(b)
+            if not und0 and acc0 == exp:
+                n += 1
+                out.ob('R03.1', 'tag dispatch of %s [%s]' % (i['self'], cfg), True, '', fn['loc'], sample={'accepted': sorted(acc0)[:12], 'encoder_tags': sorted(exp)})
+                probed_ok = True
+        if probed_ok:
+            continue
         if not alts:
             if exp is not None and any(e[0] == 'rb' for e in its):
                 # not a `match byte {..}`: decide the accepted set by evaluating the conditions for every byte value
